@@ -172,6 +172,12 @@ func (s *mainQueueScheduler) forward(sender string, seq uint64) {
 
 		s.remove(tx, seqHeap)
 	}
+
+	// The transaction that has just become the sender's first pending
+	// transaction may now be schedulable.
+	if tx, ok := seqHeap.get(seq); ok && !isPendingSchedule(tx) && s.isSchedulable(tx, seqHeap) {
+		s.maxHeap.push(tx)
+	}
 }
 
 // handleTxUsed removes the transaction with the given hash and forwards
